@@ -9,7 +9,7 @@
     arbitrary eviction, re-opening).  Proofs: Proofs/BlockStore.v. *)
 From Coq Require Import List NArith.
 Import ListNotations.
-From Ont Require Import Gen.LedgerIndexConsts Gen.LedgerIndexFormulas Model.BlockStore Proofs.BlockStore.
+From Ont Require Import Gen.LedgerIndexConsts Gen.LedgerIndexFormulas Model.BlockStore Proofs.BlockStore Proofs.BlockStoreWindow.
 Local Open Scope N_scope.
 
 (** [answers s chain] (Proofs/BlockStore.v): for every position i of [chain] with block b, and for
@@ -47,6 +47,19 @@ Theorem c40_chain_is_committed : forall (blocks : list block),
   committed 0 (map OCommit blocks) = blocks.
 Proof. intros blocks H. exact (committed_map_commit blocks 0 H). Qed.
 Print Assumptions c40_chain_is_committed.
+
+(** The header index cache window (supporting; this is where the exact arithmetic of setHeaderIndex and
+    loadHeaderIndexList as translated from the source matters): along every history of AddBlock and
+    restarts (no headers received ahead) the cache holds exactly the heights firstIndex .. current
+    height, lastIndex is the current height, at most HEADER_INDEX_MAX_SIZE + 1 heights are held and the
+    most recent min(height + 1, HEADER_INDEX_MAX_SIZE) are never dropped.  The answers above do not
+    depend on it (evicted heights are read from the store); it bounds the cache and ties the model's
+    window to the source expressions. *)
+Theorem c40_header_index_window : forall (g : block) (ops : list op) (s : store),
+  history_ok g ops -> no_headers ops -> run_ledger g ops = Some s ->
+  window (s_hic s) (s_cur_height s).
+Proof. exact window_holds. Qed.
+Print Assumptions c40_header_index_window.
 
 (** Non-vacuity: a concrete history (two blocks with transactions, a header received ahead, a stale
     block, a restart in the middle) satisfies the hypotheses, and the model really computes the
